@@ -45,6 +45,13 @@ def build(rng, tier):
                 continue
             if rng.random() < (0.0 if ns == 1 else 0.45):
                 scn['sources'][si][m] = 'absent'
+    # an earlier source may hold a broken copy: the later, well-formed copy is the one compiled and its
+    # IMPORTS are followed all the same
+    if ns > 1 and rng.random() < 0.15:
+        m = rng.choice([x for x in mods if x != scn.get('folded')])
+        scn['sources'][0][m] = rng.choice(['synerr', 'lexerr', 'truncated'])
+        scn['sources'][rng.randrange(1, ns)][m] = 'ok'
+        scn['broken_first_copy'] = m
     # a file named unlike its module, whose module imports the file's own name (and is requested by it)
     if rng.random() < 0.08 and not scn['files']:
         m = rng.choice(mods)
@@ -94,6 +101,8 @@ def run_case(idx, rng, tier, res):
         res.count('smiv1_style_import_scenarios')
     if scn.get('self_alias_import'):
         res.count('alias_file_importing_its_own_name')
+    if scn.get('broken_first_copy'):
+        res.count('broken_copy_in_earlier_source')
     res.cell('graph:' + cls, 'sources:%d' % len(scn['sources']),
              'closure:%d' % min(8, len(orch.closure(scn, scn['requested']))))
     res.sig = harness.stable_hash(scn)
